@@ -119,10 +119,15 @@ def render_val(v):
 SHARED = ["R1", "R2", "E1", "E2", "RF1", "RF2", "EF1", "EF2"]
 # R1/R2 (E1/E2): two distinct declarations of equal shape (equal values).
 # RF1/RF2 (EF1/EF2): declarations made by one record()/enum() call site executed twice.
-PRELUDE_A = '''R1 = record(a=int)
-R2 = record(a=int)
-E1 = enum("a", "b")
-E2 = enum("a", "b")
+# R1/E1 and R2/E2 are declared by two files of the same base name in different directories, at the same
+# places of identical text (harness: DEFS_SRC in pkg_a/defs.star and pkg_b/defs.star): all that tells the
+# declarations apart is the full path of the file.
+PRELUDE_A = '''load("pkg_a/defs.star", _R1 = "RX", _E1 = "EX")
+load("pkg_b/defs.star", _R2 = "RX", _E2 = "EX")
+R1 = _R1
+R2 = _R2
+E1 = _E1
+E2 = _E2
 def _mkrec(t): return record(a=t)
 RF1 = _mkrec(int)
 RF2 = _mkrec(str)
